@@ -136,7 +136,8 @@ def configs(tier):
                         continue
                     if cause == 'cancel' and instant == 'cleanup':
                         continue    # a second cancellation aborts the clean-up itself (not a
-                                    # termination cause of the statement; run() avoids it too)
+                                    # termination cause of the statement; run() avoids it too);
+                                    # see the 'aborted clean-up' cases below (reduced oracle)
                     for entry in ('run_forever', 'run'):
                         if cause in ('support-returns', 'support-raises', 'sigterm') and entry != 'run':
                             continue
@@ -164,6 +165,17 @@ def configs(tier):
                     for perm in (perms[0], perms[-1]):
                         out.append(dict(comp=comp, fault=None, cause=cause, instant='cpu-hold',
                                         entry=entry, perm=perm, hold=hold))
+    # aborted clean-up: the simulation task is cancelled a second time while it awaits the
+    # stop_async routines. The clean-up of the remaining blocks is lost by definition, so only
+    # the clauses that still apply are judged: no block stopped twice, no edzed task left
+    # pending a few loop iterations after the task is finished, nothing happens later, frozen.
+    for comp in COMPS:
+        if not any(k == 'astop' for _n, k, _p in comp_blocks(comp)):
+            continue
+        nblk = len(comp_blocks(comp))
+        for perm in itertools.permutations(range(nblk)):
+            out.append(dict(comp=comp, fault=None, cause='cancel', instant='cleanup',
+                            entry='run_forever', perm=perm))
     if tier == 'thorough':
         # two injected faults (different sites), a reduced cause / instant set
         for comp in COMPS:
@@ -586,6 +598,9 @@ def judge(cfg, specs, log, flog, res):
                          f"{tag}: the simulation task was still running 200 s after the stop request "
                          f"(error {res.get('still_running_error')})"))
     # 1. stop() exactly once on exactly the started blocks
+    aborted_cleanup = cfg['cause'] == 'cancel' and cfg['instant'] == 'cleanup'
+    if aborted_cleanup and not res.get('in_cleanup'):
+        viol.append(('harness-instant-missed', f"{tag}: not in the clean-up at the chosen instant"))
     idx = {}
     for k, e in enumerate(log[:res['n_log_end']] + res.get('late_log', [])):
         idx.setdefault((e[1], e[2]), []).append(k)
@@ -595,14 +610,18 @@ def judge(cfg, specs, log, flog, res):
         stops = len(idx.get((name, 'stop'), []))
         if started > 1 or len(idx.get((name, 'start'), [])) > 1:
             viol.append(('started-twice', f"{tag}: {name}.start() called {len(idx.get((name, 'start'), []))} times"))
-        if stops != (1 if started else 0):
+        if aborted_cleanup:
+            if stops > started:
+                viol.append(('stop-count',
+                             f"{tag}: {name}: start() returned {started}x, stop() called {stops}x"))
+        elif stops != (1 if started else 0):
             viol.append(('stop-count',
                          f"{tag}: {name}: start() returned {started}x, stop() called {stops}x"))
     # 2. async clean-up first
     sync_stops = [idx[(n, 'stop')][0] for n, kind, _p in specs
                   if kind == 'sync' and (n, 'stop') in idx]
     for name, kind, params in specs:
-        if kind not in ('astop', 'maintask') or (name, 'stop') not in idx:
+        if kind not in ('astop', 'maintask') or (name, 'stop') not in idx or aborted_cleanup:
             continue
         k_stop = idx[(name, 'stop')][0]
         if sync_stops and k_stop > min(sync_stops):
@@ -633,7 +652,7 @@ def judge(cfg, specs, log, flog, res):
     # 3. nothing outlives the simulation
     if res.get('tasks'):
         viol.append(('task-left-pending', f"{tag}: pending tasks after the end: {res['tasks']}"))
-    if res.get('timers'):
+    if res.get('timers') and not aborted_cleanup:
         viol.append(('timer-left-pending', f"{tag}: live timers after the end: {res['timers']}"))
     if res.get('late_log'):
         viol.append(('activity-after-the-end', f"{tag}: {res['late_log'][:4]}"))
